@@ -8,6 +8,7 @@ import (
 	"fmt"
 	"net/http"
 	"net/http/httptest"
+	"runtime"
 	"strings"
 	"sync"
 	"time"
@@ -61,6 +62,62 @@ func (a *adapterClient) newSession() (*session, error) {
 		return nil, err
 	}
 	return &session{st, tr, mainsvc.NewFFooClient(frugal.NewFServiceProvider(tr, a.pf))}, nil
+}
+
+// monRec is an FTransportMonitor that only records how the transport closed
+// (the monitor has its own channel: it tells the monitor of a close without
+// touching what Closed() delivers to the application).
+type monRec struct{ ev chan monEv }
+type monEv struct {
+	clean bool
+	cause error
+}
+
+func (m *monRec) OnClosedCleanly() { m.ev <- monEv{true, nil} }
+func (m *monRec) OnClosedUncleanly(cause error) (bool, time.Duration) {
+	m.ev <- monEv{false, cause}
+	return false, 0
+}
+func (m *monRec) OnReopenFailed(uint, time.Duration) (bool, time.Duration) { return false, 0 }
+func (m *monRec) OnReopenSucceeded()                                       {}
+
+// goroutineID is the id of the calling goroutine as dumps print it.
+func goroutineID() string {
+	b := make([]byte, 64)
+	b = b[:runtime.Stack(b, false)]
+	if f := strings.Fields(string(b)); len(f) > 1 {
+		return f[1]
+	}
+	return ""
+}
+
+// parkedIn reports that goroutine id is parked in state (prefix) inside
+// library function fn.
+func parkedIn(id, fn, state string) bool {
+	head := "goroutine " + id + " [" + state
+	for _, g := range strings.Split(allStacks(), "\n\n") {
+		if strings.HasPrefix(g, head) {
+			return strings.Contains(g, frugalPkg+fn+"(")
+		}
+	}
+	return false
+}
+
+// callHeld starts the generated call; nothing is fed by itself.  flushed is
+// closed when the request frame has left, gid is the id of the calling
+// goroutine.
+func (s *session) callHeld(base int, opid uint64) (done <-chan callResult, flushed <-chan struct{}, gid string) {
+	var once sync.Once
+	fl := make(chan struct{})
+	s.st.OnFrame = func([]byte) { once.Do(func() { close(fl) }) }
+	d := make(chan callResult, 1)
+	idC := make(chan string, 1)
+	go func() {
+		idC <- goroutineID()
+		ok, err := clientOp(base, s.c, callCtx(opid))
+		d <- callResult{ok, err}
+	}()
+	return d, fl, <-idC
 }
 
 // call makes the generated call and feeds `feed` (then EOF if eof) when the
@@ -171,22 +228,67 @@ func (a *adapterClient) deliver(idx int, in input) outcome {
 	if err != nil {
 		return outcome{"wrong", "open: " + err.Error()}
 	}
-	closed := s1.tr.Closed()
-	done, fed := s1.call(in.Base, opid, [][]byte{in.Data, valid}, true)
-	// the stream ends after the hostile bytes and the valid response: the read
-	// loop must come to an end and publish it on Closed()
-	cause, o := await(closed, nil, adapterReadLoop)
-	if o.kind != "ok" {
+	mon := &monRec{ev: make(chan monEv, 4)}
+	s1.tr.SetMonitor(mon)
+	// the hostile bytes arrive WHILE a request is in flight: the request frame
+	// has left and the caller is parked in Request's select (or has returned)
+	done, flushed, gid := s1.callHeld(in.Base, opid)
+	var early *callResult
+	if o := awaitCond(func() bool {
+		select {
+		case r := <-done:
+			early = &r
+			return true
+		default:
+		}
+		select {
+		case <-flushed:
+		default:
+			return false
+		}
+		return parkedIn(gid, "(*fAdapterTransport).Request", "select")
+	}, nil); o.kind != "ok" {
 		if o.kind == "stall" {
-			o.note = "adapter transport never reported the end of the stream on Closed(): " + o.note
+			o.note = "the request never got as far as waiting for its response: " + o.note
 		}
 		return o
 	}
-	// the transport may close in the middle of the peer's writes: session 1 is
-	// over only when the peer has written everything (nothing of it may leak
-	// into the stream of a later session of the scripted connection)
-	if _, o := await(fed, nil, ""); o.kind != "ok" {
+	s1.st.Feed(in.Data)
+	s1.st.Feed(valid)
+	s1.st.FeedEOF()
+	// the stream ends after the hostile bytes and the valid response: the read
+	// loop must come to an end and say so.  The fence is the transport monitor
+	// (its own channel); the application looks at Closed() only afterwards.
+	ev, o := await(mon.ev, nil, adapterReadLoop+"|idle:(*monitorRunner).run")
+	if o.kind != "ok" {
+		if o.kind == "stall" {
+			o.note = "adapter transport never reported the end of the stream: " + o.note
+		}
 		return o
+	}
+	cause := ev.cause
+	closed := s1.tr.Closed()
+	var first error
+	select {
+	case first = <-closed:
+	default:
+		return outcome{"wrong", fmt.Sprintf("[cause-not-published] the transport monitor was told of the close (cause: %v) but Closed() delivers nothing", cause)}
+	}
+	if cause != nil && first == nil {
+		return outcome{"wrong", fmt.Sprintf("[cause-lost] the transport closed because of the peer's bytes (cause given to the transport monitor: %v) while a request was waiting, but the application's first read of Closed() yields nil, i.e. a clean close", cause)}
+	}
+	select {
+	case second, open := <-closed:
+		if second != nil || open {
+			return outcome{"wrong", fmt.Sprintf("[cause-twice] Closed() yields a second value: %v", second)}
+		}
+	default:
+		return outcome{"wrong", "[cause-channel-open] Closed() is not closed after it delivered the cause"}
+	}
+	if early != nil {
+		dn := make(chan callResult, 1)
+		dn <- *early
+		done = dn
 	}
 	how := "/clean-close"
 	if cause != nil {
